@@ -13,6 +13,7 @@ From LMBase Require Import IEEE.
 From Coq Require Import Reals.
 From Flocq Require Import Core BinarySingleNaN.
 From LMPwm Require Import GenComplement PwmModel PwmCheck PwmProofs PwmExact PwmF32 PwmCheckSound PwmF32Rescale PwmF32Mirror PwmF32Freq PwmF32Commute.
+From LMPwm Require Import PwmCheck2 PwmCheck2Sound.
 Import ListNotations.
 Local Open Scope nat_scope.
 
@@ -276,6 +277,75 @@ Proof.
   - exact (mirror_error terms Fa Fb).
   - apply mirror_model_passes_check; [|exact Fa | exact Fb].
     unfold terms, window_terms. rewrite map2_length. lia.
+Qed.
+
+(* ---- round 3, wave 3 (review C10/1-3) ---- *)
+
+(* the pseudocounts the property text does not mention: the scalar pseudocount of
+   Pseudocounts::from(f32) ([c] on A, C, T, G and 0 on N) is strand-symmetric for every
+   carrier, so the hypothesis [rc_row_spec pseudo = pseudo] of C10_revcomp_commutes is met
+   by every scalar pseudocount; a per-symbol pseudocount vector must be strand-symmetric
+   itself (p_A = p_T, p_C = p_G), like the background *)
+Theorem C10_pseudo_scalar_symmetric :
+  forall (T : Type) (O : NumOps T) (c : T),
+    rc_row_spec (n_zero O) dna_K dna_comp (pseudo_scalar O dna_K c) = pseudo_scalar O dna_K c /\
+    length (pseudo_scalar O dna_K c) = dna_K.
+Proof. intros T O c. split; reflexivity. Qed.
+
+Theorem C10_revcomp_commutes_scalar_pseudo :
+  forall (flog2 : Qc -> Qc) (c : Qc) (bg : list Qc) (cm : list (list N)),
+    length bg = dna_K -> dna_rows cm ->
+    rc_row_spec (n_zero Qcops) dna_K dna_comp bg = bg ->
+    let pseudo := pseudo_scalar Qcops dna_K c in
+    dna_rc (n_zero Qcops) (into_scoring Qcops flog2 bg (to_freq Qcops pseudo cm))
+    = into_scoring Qcops flog2 bg (to_freq Qcops pseudo (dna_rc 0%N cm)) /\
+    dna_rc (n_zero Qcops) (to_weight Qcops bg (to_freq Qcops pseudo cm))
+    = to_weight Qcops bg (to_freq Qcops pseudo (dna_rc 0%N cm)).
+Proof.
+  intros f2 c bg cm Hb Hc Hs pseudo.
+  destruct (C10_pseudo_scalar_symmetric Qc Qcops c) as [Hp Hl].
+  exact (C10_revcomp_commutes f2 pseudo bg cm Hl Hb Hc Hp Hs).
+Qed.
+
+(* what a passing mirrored-score check states, with the cases that are NOT judged named by
+   the extracted [mirror_skipped] (counted and reported by the driver): a NaN term or score, a
+   +inf term, or finite terms with an overflowed score -- in the last case the two strands may
+   legitimately differ (3e38 + 3e38 - 3e38 is +inf in one order and 3e38 in the other), so
+   bit equality cannot be demanded there (review C10/3) *)
+Theorem C10_check_mirror_sound2 :
+  forall (terms : list F32.t) (a b : F32.t),
+    check_mirror terms a b = true -> mirror_skipped terms a b = false ->
+    (exists t x y, all_some (map f32_to_Q terms) = Some t /\ f32_to_Q a = Some x /\ f32_to_Q b = Some y /\
+                   (Qabs (x - y) <= (Z.of_nat (length t) # 8388608) * Qsum (map Qabs t))%Q)
+    \/ (all_some (map f32_to_Q terms) = None /\ existsb F32.is_nan terms = false /\
+        existsb (fun t => F32.eq t F32.inf) terms = false /\ a = b).
+Proof. exact check_mirror_sound2. Qed.
+
+(* binary32: the overflow example, computed in the kernel: same terms, the two summation
+   orders give +inf and a finite score; the checker does not judge it *)
+Example C10_mirror_overflow_example :
+  let M := F32.of_bits 2130706432 in    (* 1.7e38 *)
+  let terms := [M; M; F32.neg M] in
+  F32.to_bits (fold_left F32.add terms F32.zero) = 2139095040%Z /\           (* +inf *)
+  F32.to_bits (fold_left F32.add (rev terms) F32.zero) = 2130706432%Z /\     (* 1.7e38 *)
+  mirror_skipped terms (fold_left F32.add terms F32.zero) (fold_left F32.add (rev terms) F32.zero) = true.
+Proof. vm_compute. repeat split; reflexivity. Qed.
+
+(* what a passing commutation check (fm_close 0 1e-6 / 1e-5 on frequencies, weights, scores)
+   states about the two observed matrices *)
+Theorem C10_commutation_check_sound :
+  forall (abs rel : Q) (m1 m2 : list (list F32.t)), fm_close abs rel m1 m2 = true ->
+    length m1 = length m2 /\
+    forall i, i < length m1 -> length (nth i m1 []) = length (nth i m2 []) /\
+      forall k, k < length (nth i m1 []) ->
+        let x := nth k (nth i m1 []) F32.zero in let y := nth k (nth i m2 []) F32.zero in
+        (forall X Y, f32_to_Q x = Some X -> f32_to_Q y = Some Y ->
+           (Qabs (X - Y) <= abs + rel * (if Qle_bool (Qabs X) (Qabs Y) then Qabs Y else Qabs X))%Q) /\
+        (f32_to_Q x = None \/ f32_to_Q y = None -> x = y).
+Proof.
+  intros abs rel m1 m2 H. destruct (fm_close_sound abs rel m1 m2 H) as [H1 H2].
+  split; [exact H1|]. intros i Hi. destruct (H2 i Hi) as [H3 H4]. split; [exact H3|].
+  intros k Hk x y. exact (f32_close_sound abs rel x y (H4 k Hk)).
 Qed.
 
 (* ---- non-vacuity / examples ---- *)
